@@ -13,6 +13,16 @@ CHECKS = [
           "permutation of small spectra. Open finding F1 (helper does not sort; suite pins it) is recognised by exact agreement with the "
           "defect model compute_eigen_nosort, whose surviving laws (non-negativity, prefix) are proved and whose failure is proved (…_refuted).",
   "note": STD_NOTE},
+ {"id": "C08",
+  "text": "Theorems (all grids that are non-decreasing lists of reals, all integrands/datasets of matching length): trapezoid integration equals "
+          "the dot product with its own weights, weights >= 0, additive and homogeneous, exact on affine pieces and additive over adjacent "
+          "pieces (hence exact for piecewise-linear integrands with breakpoints on the grid), factorises over product grids; squared norm "
+          "homogeneous, |c|-homogeneity of the norm, Cauchy-Schwarz and triangle inequality (square roots as oracle values); the Gram matrix as "
+          "the code builds it (upper triangle, symmetrise, halve diagonal) equals the matrix of inner products, is symmetric, has squared norms "
+          "on its diagonal, its quadratic form is the squared norm of the combination (PSD), rows sum to zero for centred curves, re-indexing "
+          "equivariance, sums of PSD component matrices are PSD. Tie: _integration_weights, _integrate (1-D/2-D/3-D), _inner_product, "
+          "DenseFunctionalData.norm/inner_product evaluated against the exact Q model; monitors for Simpson linearity, multivariate and basis data.",
+  "note": STD_NOTE + " Simpson's rule is not modelled (linearity monitored only). Basis-expansion Gram matrices are monitored, not modelled."},
 ]
 
 ALL = ["C%02d" % i for i in range(1, 21)]
